@@ -156,7 +156,7 @@ def one_call(item, ex, specs, rng, lo, hi, small=False, plan=None):
                         delta = float("inf")
         kappa = N.cancellation(b.result if b.result_kind == "scalar" else 0, env) if b.result_kind == "scalar" else 1.0
         rec["conditioning"] = {"discrepancy": disc, "response_to_1e-12": delta, "cancellation": kappa}
-        if disc <= delta or kappa > 1e6:
+        if disc <= 10 * delta or kappa > 1e6:
             rec.update(status="inadmissible", why="ill-conditioned evaluation point (discrepancy below the real function's "
                 "response to a 1e-12 relative change of its arguments, or cancellation > 1e6 in the closed form)")
             return rec
@@ -449,6 +449,31 @@ def run(ctx):
                     "tie_call": (r.get("tie") or {}).get("sample")})
                 shown += 1
     (ctx.build / "records.json").write_text(json.dumps(recs, indent=1, default=str))
+    if os.environ.get("C02_WRITE_ALLOWLISTS"):
+        # maintenance only (never set by ./check): re-baseline the committed allowlists from this run of the pinned tree
+        DATA.mkdir(exist_ok=True)
+        unex = {r["key"]: r["reason"][:300] for r in unextracted}
+        for u in untied:
+            unex[f"untied:{u['item']}"] = ("extracted, but no admissible argument tuple was found for the numeric tie: "
+                + u["why"][:200])
+        (DATA / "c02_unextracted.json").write_text(json.dumps({"comment": "pinned-tree baseline: calculate_* functions "
+            "whose closed form is not extracted (key -> reason) and extracted functions that cannot be tied numerically "
+            "(untied:<key>). An item that appears here later is a broken tie.", "items": unex}, indent=1, sort_keys=True) + "\n")
+        unpr = {}
+        stmts = {lm.name: lm.statement for lm in lemmas}
+        for lm in claimed:
+            if res.get(lm.name) != "ok":
+                unpr[lm.name] = {"item": lm.item, "reason": "no tactic of the portfolio closes the goal on the pinned tree",
+                    "goal": stmts[lm.name]}
+        for lm in unclaimed:
+            if lm.name not in now_provable:
+                unpr[lm.name] = allow_unpr[lm.name]
+        for k, why in no_obl.items():
+            unpr[k] = {"item": k, "reason": "no obligation generated: " + why[:300], "goal": None}
+        (DATA / "c02_unproved.json").write_text(json.dumps({"comment": "pinned-tree baseline: generated lemmas the portfolio "
+            "does not close (with the goal) and extracted functions for which no obligation is generated. These are NOT "
+            "claimed; they are covered by the numeric stream only.", "items": unpr}, indent=1, sort_keys=True) + "\n")
+        ctx.log(f"allowlists written: {len(unex)} unextracted/untied, {len(unpr)} unproved/no-obligation")
 
 
 def replay(ctx, rep):
